@@ -60,4 +60,17 @@ CHECKS = {
         ref="§4 C15, §4a-D",
         note=_NOTE + " SHA-256 outputs are bound from the trace (their correctness is C14).",
         technique="TLC model checking of the coded state update + TLC trace validation of structural DRBG traces (ld --wrap) against the Hash_DRBG state machine"),
+    "C02": dict(
+        text="Montgomery multiplication/reduction (Comba and row-wise) and the add/sub/neg/dbl/hlv carry loops with their "
+             "conditional corrections are transcribed digit by digit (model/FpMonty) and model-checked exhaustively with TLC at "
+             "digit widths of 2-3 bits for every odd prime modulus of 1-3 digits, every residue pair and every double-length "
+             "value below p*R (result < p, result*R = input mod p, no lost carry). Every public fp call executed by the driver - "
+             "all parameter ids accepted by fp_param_set in the 256-bit build (NIST, Brainpool, secp256k1, SM2, BN-256, SM9; "
+             "thorough: 2^255-19, H2ADC, BLS12-381), five one-digit and nine two-digit primes in 8-bit-digit builds (all "
+             "residues; thorough: all pairs), every algorithm variant, alias pattern, exponent class and derived constant - is "
+             "validated by TLC against arithmetic modulo p on abstract values (FpSpec over Field/FpRep) with a canonical-range "
+             "clause on every output; inverses and roots by relation, inversion of zero must throw.",
+        ref="§4 C02",
+        note=_NOTE + " fp_smb_binar/fp_smb_divst are driven at 64-bit digits only (their signed-state arithmetic is not 8-bit clean); ARITH=easy only.",
+        technique="TLC model checking of transcribed Montgomery/conditional-correction algorithms + TLC trace validation of recorded fp calls against the Z/pZ spec"),
 }
